@@ -258,6 +258,8 @@ func (x *Exec) callByContract(fr *Frame, st *State, callee *ssa.Function, c *Con
 	// havoc
 	ws := x.prog.writeSet(callee)
 	bound := st.alloc
+	na := Fresh("alloc@"+relName(callee), SInt)
+	x.ctx.assume(st, Ge(na, st.alloc))
 	for _, name := range sortedKeys(ws) {
 		w := ws[name]
 		vs, ok := x.ctx.heapSorts[name]
@@ -271,13 +273,11 @@ func (x *Exec) callByContract(fr *Frame, st *State, callee *ssa.Function, c *Con
 			continue // callee-local cells are invisible to the caller
 		}
 		if c.NoFrame || anyOf[name] {
-			x.ctx.hhavoc(st, name, vs, nil, nil, relName(callee))
+			x.ctx.hhavoc(st, name, vs, nil, nil, relName(callee), na)
 		} else {
-			x.ctx.hhavoc(st, name, vs, bound, excl[name], relName(callee))
+			x.ctx.hhavoc(st, name, vs, bound, excl[name], relName(callee), na)
 		}
 	}
-	na := Fresh("alloc@"+relName(callee), SInt)
-	x.ctx.assume(st, Ge(na, st.alloc))
 	st.alloc = na
 	res := x.freshResults(st, "r."+relName(callee), callee.Signature.Results())
 	nf.results = res
